@@ -184,6 +184,49 @@ def gen(rng, tier):
             for anchor in (None, 0, n):
                 nd, alpha = make_needle(rng, n, None, rng.randrange(6))
                 out.append(case(anchor, nd, haystacks(rng, nd, alpha, None, tier)))
+    out += sibling_families(rng, tier)
+    return out
+
+
+def sibling_families(rng, tier):
+    """Needles that are close relatives of each other, compiled one after the other in the same process and each run
+    on haystacks that hold every member of the family: a searcher must answer for its own needle whatever was
+    compiled before it.  Relatives differ in one byte (another non-ASCII byte, the other letter case, one bit), or
+    are each other's prefix / extension."""
+    out = []
+    fams = 24 if tier == "thorough" else 8
+    pools = [
+        [0xFF, 0xFE, 0x80, 0x81, 0xC0, 0xC3, 0xA9, 0xEF, 0xBF, 0xBD, 0xF0, 0x9F],   # UTF-8 lead / continuation / invalid
+        [0x41, 0x61, 0x5A, 0x7A, 0x4B, 0x6B],                                       # letter case
+        [0x00, 0x01, 0x20, 0x09, 0x0A, 0x7F, 0x30, 0x31],                           # controls, space, digits
+    ]
+    for f in range(fams):
+        pool = pools[f % len(pools)]
+        n = rng.choice([2, 2, 3, 4, 5, 8, 17])
+        base = bytearray(rng.choice(pool) if rng.random() < 0.7 else rng.choice([0x61, 0x62]) for _ in range(n))
+        members = [bytes(base)]
+        for _ in range(4):
+            x = bytearray(base)
+            j = rng.randrange(n)
+            k = rng.random()
+            if k < 0.5:
+                x[j] = other(rng, pool, x[j])
+            elif k < 0.7:
+                x[j] ^= 1 << rng.randrange(8)
+            elif k < 0.85:
+                x = x + bytes([rng.choice(pool)])
+            else:
+                x = x[:-1] if len(x) > 2 else x + bytes([rng.choice(pool)])
+            if bytes(x) not in members:
+                members.append(bytes(x))
+        hays = [b""]
+        for m in members:
+            hays.append(m)
+            hays.append(b"ab" + m + b"cd")
+            hays.append(bytes([0x61]) * rng.choice([15, 16, 31, 32, 33]) + m)
+            hays.append(m + bytes([0x62]) * rng.choice([1, 17, 40]))
+        for m in members:
+            out.append(case(None, bytearray(m), hays))
     return out
 
 
